@@ -5,10 +5,12 @@
 -/
 import NB.Drv.C01
 import NB.Drv.C15
+import NB.Drv.C05
 
 def handlers : List (String × (String → List String → Option (String × String))) :=
   [ ("C01", NB.Drv.C01.handle),
-    ("C15", NB.Drv.C15.handle) ]
+    ("C15", NB.Drv.C15.handle),
+    ("C05", NB.Drv.C05.handle) ]
 
 def answer (line : String) : String :=
   match (line.trimAscii.toString.splitOn " ").filter (· ≠ "") with
